@@ -226,6 +226,11 @@ class MPSWorld(World):
             op["site"] = r.randrange(L)
             op["where"] = sorted(r.sample(range(L), min(L, r.choice([1, 2, 2]))))
             op["normalized"] = r.random() < 0.7
+            # non-default reader arguments
+            op["ropts"] = {"direction": r.choice(["Z", "Z", "X", "Y"]),
+                           "get": r.choice(["ket", "ket", "rho", "ket-dense", "rho-dense"]),
+                           "method": r.choice([None, None, "eig"]),
+                           "descending": r.random() < 0.3}
         elif k == "measure":
             op["site"] = r.randrange(L)
             op["remove"] = r.random() < 0.3
@@ -647,9 +652,13 @@ class MPSWorld(World):
             i = 1 + site % (L - 1)
             M = psi.reshape(int(np.prod(dims[:i])), -1)
             s = np.linalg.svd(M, compute_uv=False)
-            got = self._must(lambda: getattr(mps, what)(i, **kw), what)
+            ro = op.get("ropts") or {}
+            mkw = {"method": ro["method"]} if ro.get("method") else {}
+            got = self._must(lambda: getattr(mps, what)(i, **mkw, **kw), what)
             if what == "singular_values":
-                self._cmp_sorted(np.asarray(got), s, what, 1e-8 * max(1.0, s[0]))
+                # method="eig" takes square roots of eigenvalues: an absolute
+                # error of sqrt(eps) * s[0] on small values is its precision
+                self._cmp_sorted(np.asarray(got), s, what, (3e-7 if mkw else 1e-8) * max(1.0, s[0]))
             elif what == "schmidt_values":
                 self._cmp_sorted(np.asarray(got), s**2, what, 1e-8 * max(1.0, s[0] ** 2))
             elif what == "entropy":
@@ -668,11 +677,13 @@ class MPSWorld(World):
                 if not abs(float(got) - want) <= 1e-7:
                     raise Violation("C08/reader:schmidt_gap", f"bond {i}: {float(got)} vs {want}")
         elif what == "magnetization":
-            if dims[site] != 2:
-                raise Skip()
-            Sz = np.array([[0.5, 0], [0, -0.5]])
-            want = np.vdot(psi, apply_dense(psi, Sz, [site], dims)).real / nrm2
-            got = self._must(lambda: mps.magnetization(site, **kw), what)
+            direction = (op.get("ropts") or {}).get("direction", "Z")
+            import quimb as qu
+
+            Sop = np.asarray(qu.spin_operator(direction, S=(dims[site] - 1) / 2))
+            want = np.vdot(psi, apply_dense(psi, Sop, [site], dims)).real / nrm2
+            dkw = {"direction": direction} if direction != "Z" else {}
+            got = self._must(lambda: mps.magnetization(site, **dkw, **kw), what)
             if abs(nrm2 - 1) > 1e-9:
                 return
             if not abs(complex(got) - want) <= 1e-8:
@@ -680,6 +691,8 @@ class MPSWorld(World):
         elif what == "ptr_canonical":
             where = [w % L for w in op["where"]]
             where = sorted(set(where))
+            if (op.get("ropts") or {}).get("descending"):
+                where = where[::-1]  # subsystems of the result follow ``where``
             rho = rdm_dense(psi, where, dims)
             if op["normalized"]:
                 rho = rho / np.trace(rho)
@@ -689,6 +702,8 @@ class MPSWorld(World):
                                 f"sites {where}: max|diff|={maxdiff(np.asarray(got), rho):.3g}")
         elif what in ("local_expectation_canonical", "compute_local_expectation"):
             where = sorted(set(w % L for w in op["where"]))
+            if (op.get("ropts") or {}).get("descending"):
+                where = where[::-1]  # the k-th factor of G acts on where[k]
             d = int(np.prod([dims[w] for w in where]))
             G = rand_general(data_rng(op["seed"]), d, self.knobs["real"])
             want = np.vdot(psi, apply_dense(psi, G, where, dims))
@@ -706,9 +721,29 @@ class MPSWorld(World):
             if L < 2:
                 raise Skip()
             sz_a = 1 + site % (L - 1)
-            got = self._must(lambda: mps.bipartite_schmidt_state(sz_a, get="ket", **kw), what)
+            form = (op.get("ropts") or {}).get("get", "ket")
+            got = self._must(lambda: mps.bipartite_schmidt_state(sz_a, get=form, **kw), what)
             M = psi.reshape(int(np.prod(dims[:sz_a])), -1)
             s = np.linalg.svd(M, compute_uv=False)
+            if form.startswith("rho"):
+                # |s><s| over (kA kB) x (bA bB): compare with the outer product
+                if form == "rho":
+                    R = np.asarray(got.to_dense(("kA", "kB"), ("bA", "bB")))
+                else:
+                    R = np.asarray(got)
+                k = int(round(math.sqrt(R.shape[0])))
+                if R.shape[0] != R.shape[1] or k * k != R.shape[0]:
+                    raise Violation("C08/reader:bipartite_schmidt_state", f"get={form}: shape {R.shape}")
+                ev = np.linalg.eigvalsh((R + R.conj().T) / 2)
+                top = float(ev[-1])
+                if abs(top - float((s**2).sum())) > 1e-8 * max(1.0, float((s**2).sum())) or (len(ev) > 1 and abs(ev[-2]) > 1e-8 * max(1.0, top)):
+                    raise Violation("C08/reader:bipartite_schmidt_state",
+                                    f"get={form}: not the rank-one projector on the Schmidt vector (top eigenvalues {ev[-2:]}, |s|^2={float((s**2).sum())})")
+                dg = np.sort(np.abs(np.real(np.diag(R))))[::-1]
+                dd = np.sort(np.abs(np.diag(R.reshape(k, k, k, k)[:, :, :, :].reshape(k * k, k * k))))[::-1]
+                self.stats.probe("reader:bipartite_schmidt_state:" + form)
+                self.stats.probe("reader:" + what)
+                return
             g = np.asarray(got.data if hasattr(got, "inds") else got).reshape(-1)
             # a state on two effective sites holding the Schmidt spectrum
             if abs(np.linalg.norm(g) - np.linalg.norm(s)) > 1e-8 * max(1.0, np.linalg.norm(s)):
